@@ -35,6 +35,14 @@ def txt(n):
     return ".".join("".join(chr(c) for c in l) for l in n)
 
 
+def dtext(n):
+    """abstract name -> data-file text: bytes outside [A-Za-z0-9_-] are written as octal escapes"""
+    out = []
+    for l in n:
+        out.append("".join(chr(c) if (48 <= c <= 57 or 65 <= c <= 90 or 97 <= c <= 122 or c in (45, 95, 33, 42)) else "\\%03o" % c for c in l))
+    return ".".join(out)
+
+
 def fq(n):
     return txt(n) + "."
 
@@ -89,14 +97,14 @@ def _bytes_text(bs, raw=""):
 def render(l, rng=None, sep=","):
     """abstract line -> data file text.  sep ':' only when no field contains one (IPv6, escapes are fine)."""
     t = l["t"]
-    d = ("*." if l["wild"] else "") + (txt(l["dom"]) or ".")
+    d = ("*." if l["wild"] else "") + (dtext(l["dom"]) or ".")
     lo = loctext(l["loc"])
     ttl = _n(l["ttl"])
     ip = l["_ip"] or ""
-    x = (txt(l["x"]) if l["x"] else "")
+    x = (dtext(l["x"]) if l["x"] else "")
     num = l["num"]
     if t == "Z":
-        f = [d, x, txt(l["y"])] + [_n(v) for v in num[:5]] + [ttl, "", lo]
+        f = [d, x, dtext(l["y"])] + [_n(v) for v in num[:5]] + [ttl, "", lo]
     elif t in ".&":
         f = [d, ip, x, ttl, "", lo]
     elif t == "+":
